@@ -69,10 +69,68 @@ var fuSpaces = map[string]fuSpace{
 		displayp3.LineariseImage, displayp3.EncodeImage},
 }
 
+// the 8-bit entry points of each space (constant tables today; nothing says they stay that way)
+type fu8 struct {
+	from8     func(uint8) float32
+	to8       func(float32) uint8
+	fromRGBA  func(color.RGBA) (r, g, b, a float32)
+	fromNRGBA func(color.NRGBA) (r, g, b, a float32)
+	toNRGBA   func(r, g, b, a float32) color.NRGBA
+	toRGBA    func(r, g, b, a float32) color.RGBA
+}
+
+var fu8Spaces = map[string]fu8{
+	"srgb": {srgb.From8Bit, srgb.To8Bit,
+		func(c color.RGBA) (float32, float32, float32, float32) {
+			x, a := srgb.ColorFromRGBA(c)
+			return x.R, x.G, x.B, a
+		},
+		func(c color.NRGBA) (float32, float32, float32, float32) {
+			x, a := srgb.ColorFromNRGBA(c)
+			return x.R, x.G, x.B, a
+		},
+		func(r, g, b, a float32) color.NRGBA { return srgb.ColorFromLinear(r, g, b).ToNRGBA(a) },
+		func(r, g, b, a float32) color.RGBA { return srgb.ColorFromLinear(r, g, b).ToRGBA(a) }},
+	"adobergb": {adobergb.From8Bit, adobergb.To8Bit,
+		func(c color.RGBA) (float32, float32, float32, float32) {
+			x, a := adobergb.ColorFromRGBA(c)
+			return x.R, x.G, x.B, a
+		},
+		func(c color.NRGBA) (float32, float32, float32, float32) {
+			x, a := adobergb.ColorFromNRGBA(c)
+			return x.R, x.G, x.B, a
+		},
+		func(r, g, b, a float32) color.NRGBA { return adobergb.ColorFromLinear(r, g, b).ToNRGBA(a) },
+		func(r, g, b, a float32) color.RGBA { return adobergb.ColorFromLinear(r, g, b).ToRGBA(a) }},
+	"prophotorgb": {prophotorgb.From8Bit, prophotorgb.To8Bit,
+		func(c color.RGBA) (float32, float32, float32, float32) {
+			x, a := prophotorgb.ColorFromRGBA(c)
+			return x.R, x.G, x.B, a
+		},
+		func(c color.NRGBA) (float32, float32, float32, float32) {
+			x, a := prophotorgb.ColorFromNRGBA(c)
+			return x.R, x.G, x.B, a
+		},
+		func(r, g, b, a float32) color.NRGBA { return prophotorgb.ColorFromLinear(r, g, b).ToNRGBA(a) },
+		func(r, g, b, a float32) color.RGBA { return prophotorgb.ColorFromLinear(r, g, b).ToRGBA(a) }},
+	"displayp3": {srgb.From8Bit, srgb.To8Bit, // Display P3 borrows the sRGB curve
+		func(c color.RGBA) (float32, float32, float32, float32) {
+			x, a := displayp3.ColorFromRGBA(c)
+			return x.R, x.G, x.B, a
+		},
+		func(c color.NRGBA) (float32, float32, float32, float32) {
+			x, a := displayp3.ColorFromNRGBA(c)
+			return x.R, x.G, x.B, a
+		},
+		func(r, g, b, a float32) color.NRGBA { return displayp3.ColorFromLinear(r, g, b).ToNRGBA(a) },
+		func(r, g, b, a float32) color.RGBA { return displayp3.ColorFromLinear(r, g, b).ToRGBA(a) }},
+}
+
 // FirstUseEntries lists the entry points (d*: reach the 16-bit decode table, e*: the encode table).
 var FirstUseEntries = []string{"d-from16", "d-enc-nrgba64", "d-enc-rgba64", "d-enc-gray16", "d-enc-nrgba", "d-enc-gray", "d-lin-nrgba64",
 	"d-lin-rgba64", "d-lin-gray", "d-linimg", "e-to16", "e-enc-rgba64", "e-enc-nrgba64", "e-enc-translucent", "e-enc-gray16", "e-torgba64",
-	"e-torgba64-half", "e-encimg"}
+	"e-torgba64-half", "e-encimg",
+	"d-from8", "d-fromrgba8", "d-fromnrgba8", "e-to8", "e-tonrgba8", "e-torgba8"}
 
 func b32(f float32) int        { return int(math.Float32bits(f)) }
 func c64(c color.RGBA64) []int { return []int{int(c.R), int(c.G), int(c.B), int(c.A)} }
@@ -187,6 +245,35 @@ func firstuseCmd(args []string) error {
 			}
 			return o
 		}
+	case "d-from8":
+		s8 := fu8Spaces[*spName]
+		call = func() []int { return []int{b32(s8.from8(3)), b32(s8.from8(200)), b32(s8.from8(255)), b32(s8.from8(0))} }
+	case "d-fromrgba8", "d-fromnrgba8":
+		s8 := fu8Spaces[*spName]
+		call = func() []int {
+			r, g, b, a := s8.fromRGBA(color.RGBA{3, 200, 255, 255})
+			if *entry == "d-fromnrgba8" {
+				r, g, b, a = s8.fromNRGBA(color.NRGBA{3, 200, 255, 255})
+			}
+			return []int{b32(r), b32(g), b32(b), b32(a)}
+		}
+		ref = func() []int { return []int{b32(s8.from8(3)), b32(s8.from8(200)), b32(s8.from8(255)), b32(1)} }
+	case "e-to8":
+		s8 := fu8Spaces[*spName]
+		call = func() []int {
+			return []int{int(s8.to8(lin[0])), int(s8.to8(lin[1])), int(s8.to8(lin[2])), int(s8.to8(1)), int(s8.to8(0))}
+		}
+	case "e-tonrgba8", "e-torgba8":
+		s8 := fu8Spaces[*spName]
+		call = func() []int {
+			if *entry == "e-torgba8" {
+				c := s8.toRGBA(lin[0], lin[1], lin[2], 1)
+				return []int{int(c.R), int(c.G), int(c.B), int(c.A)}
+			}
+			c := s8.toNRGBA(lin[0], lin[1], lin[2], 1)
+			return []int{int(c.R), int(c.G), int(c.B), int(c.A)}
+		}
+		ref = func() []int { return []int{int(s8.to8(lin[0])), int(s8.to8(lin[1])), int(s8.to8(lin[2])), 255} }
 	default:
 		return fmt.Errorf("unknown entry %q", *entry)
 	}
@@ -201,7 +288,13 @@ func firstuseCmd(args []string) error {
 	}
 	first, p1 := safe(call) // <- the first call into the library
 	// make sure everything exists by the plain route, then repeat
-	_, pw := safe(func() []int { sp.from16(1); sp.to16(0.5); return nil })
+	_, pw := safe(func() []int {
+		sp.from16(1)
+		sp.to16(0.5)
+		fu8Spaces[*spName].from8(1)
+		fu8Spaces[*spName].to8(0.5)
+		return nil
+	})
 	again, p2 := safe(call)
 	refv := again
 	p3 := ""
